@@ -188,6 +188,8 @@ def _rest(ctx: Ctx, env, it_mf, tc_mf, irt_q: str):
     T = lambda k: RefV(AST + k)  # noqa: E731
     expectations = [("single", T("String"), {"String"}), ("tuple", PyTuple([T("Identifier"), T("String")]), {"Identifier", "String"}),
                     ("tuple1", PyTuple([T("Integer")]), {"Integer"})]
+    # a single expected class of every literal kind: class names that contain one another (Date / Time in DateTime) must not pass for each other
+    expectations += [(f"single-{k}", T(k), {k}) for k in sorted(k for k in schema.concrete() if schema.is_sub(k, "_Literal")) if k != "String"]
     # every class type inference can answer with: the literal classes (a subclass relation between two of them must not make one
     # pass for the other) and Identifier
     actuals = [None, "Identifier"] + sorted(k for k in schema.concrete() if schema.is_sub(k, "_Literal"))
